@@ -258,6 +258,31 @@ func c16Canon(v any) string {
 // ---------------------------------------------------------------------------------------------------
 // start-up as cmd/dastard does it
 
+// c16RealSetup runs the real setupViper() of cmd/dastard (a child process of that package's test binary) on the home directory.
+// It returns "" when that succeeded or when the binary is not available.
+func c16RealSetup(home string) string {
+	bin := os.Getenv("VERIF_C16_MAINBIN")
+	if bin == "" {
+		return ""
+	}
+	if _, err := os.Stat(bin); err != nil {
+		return ""
+	}
+	cwd := filepath.Join(home, "cwd")
+	os.MkdirAll(cwd, 0o755)
+	cmd := exec.Command(bin, "-test.run", "^$")
+	cmd.Dir = cwd
+	cmd.Env = append(os.Environ(), "VERIF_C16_SETUP="+home, "HOME="+home)
+	out, err := cmd.CombinedOutput()
+	if err != nil && strings.Contains(string(out), "SETUP-ERROR:") {
+		return strings.TrimSpace(string(out))
+	}
+	if err != nil && !strings.Contains(string(out), "SETUP-OK") {
+		return fmt.Sprintf("the start-up code ended with %v: %s", err, strings.TrimSpace(string(out)))
+	}
+	return ""
+}
+
 // c16SetupViper repeats the viper calls of cmd/dastard's setupViper (with HOME already pointing at home).
 func c16SetupViper(home string) error {
 	viper.Reset()
@@ -965,7 +990,10 @@ func c16CrashRun(c c16CrashCase) (v vVerdict) {
 			continue
 		}
 		_ = out
-		// next start-up
+		// next start-up: first what cmd/dastard's own setupViper does with the directory the crash left behind
+		if msg := c16RealSetup(home); msg != "" {
+			return vFailf("crash-startup-fails", "killed on entry to call %d of the save [%s]: the next start-up fails: %s", pi+1, p.text, vTrim(msg, 300))
+		}
 		full := filepath.Join(home, ".dastard", "config.yaml")
 		st, serr := os.Stat(full)
 		if serr != nil {
